@@ -51,6 +51,17 @@ CLAUSES = [
     inv({"classes/defs.yml": cls("defs", first="a", second="b"), "classes/roles/a.yml": cls("roles.a", ["roles.${second}"]),
          "classes/roles/b.yml": cls("roles.b", ["roles.${first}"]), "nodes/n.yml": cls("n", ["defs", "roles.${first}"])}),
     inv({"classes/defs.yml": cls("defs", role="web"), "classes/web.yml": cls("web", ["${role}", "web"]), "nodes/n.yml": cls("n", ["defs", "web", "${role}"])}),
+    # an escaped entry names the class literally called ${baz}; a genuine reference written after it (whose text equals a
+    # name in the seen list) is still resolved and loads the class it resolves to
+    inv({"classes/${baz}.yml": cls("lit"), "classes/defs.yml": cls("defs", baz="tgt"), "classes/tgt.yml": cls("tgt"),
+         "nodes/n.yml": cls("n", ["defs", "\\${baz}", "${baz}"]), "nodes/m.yml": cls("m", ["defs", "${baz}", "\\${baz}", "${baz}"]),
+         "nodes/o.yml": cls("o", ["\\${baz}", "defs", "${baz}", "tgt"])}),
+    inv({"classes/x${y}z.yml": cls("lit", ["inner"]), "classes/inner.yml": cls("inner", y="-"), "classes/x-z.yml": cls("x-z"),
+         "nodes/n.yml": cls("n", ["x\\${y}z", "x${y}z", "x\\${y}z"])}),
+    # include cycles whose back edge is a reference that renders to a RELATIVE name (self-include and mutual include)
+    inv({"classes/defs.yml": cls("defs", self_ref=".loop", peer=".b", up="..grp.a"), "classes/grp/loop.yml": cls("grp.loop", ["${self_ref}"]),
+         "classes/grp/a.yml": cls("grp.a", ["${peer}"]), "classes/grp/b.yml": cls("grp.b", [".a", "${peer}", "${up}"]),
+         "nodes/n.yml": cls("n", ["defs", "grp.loop"]), "nodes/m.yml": cls("m", ["defs", "grp.a"]), "nodes/o.yml": cls("o", ["defs", "grp.b", "grp.loop"])}),
     # reference in include that cannot be resolved yet
     inv({"classes/a.yml": cls("a"), "nodes/n.yml": cls("n", ["${x}", "a"], x="a")}),
 ]
